@@ -240,6 +240,7 @@ func init() {
 		checkPreimage(c, "preimage-coverage", preimageTable)
 		c.floor("preimage-coverage", 150)
 		c.needFixture("preimage-coverage")
+		c02SectionComplete(c)
 		// all three resources in tipAndResourcesHash
 		if f := p.Func("core", "", "tipAndResourcesHash"); f != nil {
 			seen := map[string]bool{}
@@ -449,4 +450,308 @@ func c02VerifySuccess(c *Ctx) {
 	}
 	c.floor("verify-success", 10)
 	_ = sort.Strings
+}
+
+
+// c02SectionComplete: the per-section digest helpers of the state-diff hash (functions of package core that take a
+// *crypto.PoseidonDigest and the section's maps/slices) commit to the section AS GIVEN: (count) the entry count fed to the
+// digest first is the sum of len() of exactly the section parameters; (unfiltered) every value an Update receives derives
+// from the parameters through key sorting, lookups and felt construction only — no call that can drop or rewrite entries;
+// (every-iteration) each iteration of a loop that updates the digest does so on every path (no skipping `continue`).
+// A digest that ignores some entries (seeded change C02-G: addresses with an empty slot list) lets two different state
+// diffs — both of which the network can produce — verify under one block hash.
+func c02SectionComplete(c *Ctx) {
+	p := c.P
+	isSection := func(t types.Type) bool {
+		switch t.Underlying().(type) {
+		case *types.Map, *types.Slice:
+			return true
+		}
+		return false
+	}
+	sortedKeysHelper := func(g *ssa.Function) bool {
+		// body: return slices.SortedFunc(maps.Keys(param), cmp)
+		if g == nil || len(g.Blocks) != 1 || len(g.Params) != 1 {
+			return false
+		}
+		keys, sorted := false, false
+		for _, s := range sitesOf(g) {
+			nm := s.CalleeName()
+			switch {
+			case strings.HasSuffix(nm, "maps.Keys") || strings.Contains(nm, "maps.Keys["):
+				keys = len(s.Args()) == 1 && s.Args()[0] == ssa.Value(g.Params[0])
+			case strings.Contains(nm, "slices.Sorted"):
+				sorted = true
+			case strings.HasSuffix(nm, ".Cmp"):
+			default:
+				if s.Callee != nil && s.Callee.Parent() == g {
+					continue
+				}
+				return false
+			}
+		}
+		return keys && sorted
+	}
+	n := 0
+	for _, fn := range p.sortedFuncs() {
+		if pkgRelOf(fn) != "core" || fn.Parent() != nil || fn.Signature.Recv() != nil || len(fn.Blocks) == 0 || strings.HasSuffix(p.Pos(fnPos(fn)), "_test.go") || p.InFixture(fnPos(fn)) {
+			continue
+		}
+		var digest *ssa.Parameter
+		var secs []*ssa.Parameter
+		for _, pa := range fn.Params {
+			if strings.HasSuffix(pa.Type().String(), "crypto.PoseidonDigest") {
+				digest = pa
+			} else if isSection(pa.Type()) {
+				secs = append(secs, pa)
+			}
+		}
+		if digest == nil || len(secs) == 0 {
+			continue
+		}
+		var ups []Site
+		for _, s := range sitesOf(fn) {
+			if s.Callee != nil && s.Callee.Name() == "Update" && len(s.Args()) > 0 && s.Args()[0] == ssa.Value(digest) {
+				ups = append(ups, s)
+			}
+		}
+		if len(ups) == 0 {
+			continue
+		}
+		n++
+		name := qname(fn)
+		// (count)
+		first := ups[0]
+		for _, u := range ups {
+			if dominatesInstr(u.Instr, first.Instr) {
+				first = u
+			}
+		}
+		var lens []ssa.Value
+		bad := ""
+		seenV := map[ssa.Value]bool{}
+		var walk func(v ssa.Value, d int)
+		walk = func(v ssa.Value, d int) {
+			if v == nil || seenV[v] || d > 12 {
+				return
+			}
+			seenV[v] = true
+			switch x := v.(type) {
+			case *ssa.Call:
+				if b, ok := x.Call.Value.(*ssa.Builtin); ok && b.Name() == "len" {
+					lens = append(lens, x.Call.Args[0])
+					return
+				}
+				for _, a := range x.Call.Args {
+					walk(a, d+1)
+				}
+			case *ssa.Convert:
+				walk(x.X, d+1)
+			case *ssa.ChangeType:
+				walk(x.X, d+1)
+			case *ssa.BinOp:
+				walk(x.X, d+1)
+				walk(x.Y, d+1)
+			case *ssa.Slice:
+				walk(x.X, d+1)
+			case *ssa.UnOp:
+				walk(x.X, d+1)
+			case *ssa.Alloc:
+				if arr := arrayLiteral(x); len(arr) > 0 {
+					for _, e := range arr {
+						walk(e, d+1)
+					}
+					return
+				}
+				if refs := x.Referrers(); refs != nil {
+					for _, r := range *refs {
+						if st, ok := r.(*ssa.Store); ok && st.Addr == ssa.Value(x) {
+							walk(st.Val, d+1)
+						}
+					}
+				}
+			case *ssa.Phi:
+				for _, e := range x.Edges {
+					walk(e, d+1)
+				}
+			}
+		}
+		for _, a := range first.Args()[1:] {
+			walk(a, 0)
+		}
+		counted := map[*ssa.Parameter]bool{}
+		for _, l := range lens {
+			pa, ok := l.(*ssa.Parameter)
+			if !ok {
+				if call, isCall := l.(*ssa.Call); isCall && sortedKeysHelper(call.Call.StaticCallee()) && len(call.Call.Args) == 1 {
+					pa, ok = call.Call.Args[0].(*ssa.Parameter)
+				}
+			}
+			if !ok {
+				bad = "len(" + term(l) + ")"
+				continue
+			}
+			counted[pa] = true
+		}
+		for _, sp := range secs {
+			if !counted[sp] && bad == "" {
+				bad = "a count that leaves out len(" + sp.Name() + ")"
+			}
+		}
+		c.check(bad == "" && len(lens) > 0, "section-complete", name+": entry count", p.Pos(first.Pos()), "the count committed first is the number of entries of the section as given", "the entry count fed to the digest is "+bad+", not the number of entries of the section parameters: entries can be left out of the commitment")
+		// (unfiltered): calls in the backward slice of the Update operands
+		badCall := ""
+		seenV = map[ssa.Value]bool{}
+		var back func(v ssa.Value, d int)
+		back = func(v ssa.Value, d int) {
+			if v == nil || seenV[v] || d > 16 {
+				return
+			}
+			seenV[v] = true
+			switch x := v.(type) {
+			case *ssa.Call:
+				cal := x.Call.StaticCallee()
+				if _, isB := x.Call.Value.(*ssa.Builtin); isB {
+					for _, a := range x.Call.Args {
+						back(a, d+1)
+					}
+					return
+				}
+				okCallee := false
+				if cal != nil {
+					nm := qname(cal)
+					switch {
+					case sortedKeysHelper(cal), strings.Contains(nm, "felt.") && (strings.HasSuffix(nm, "SetUint64") || strings.Contains(nm, "FromUint64")):
+						okCallee = true
+					case strings.Contains(nm, "slices.Sorted") || strings.Contains(nm, "maps.Keys"):
+						okCallee = true
+					}
+				}
+				if !okCallee {
+					badCall = term(v)
+					return
+				}
+				for _, a := range x.Call.Args {
+					back(a, d+1)
+				}
+			case *ssa.Convert:
+				back(x.X, d+1)
+			case *ssa.ChangeType:
+				back(x.X, d+1)
+			case *ssa.UnOp:
+				back(x.X, d+1)
+			case *ssa.IndexAddr:
+				back(x.X, d+1)
+			case *ssa.Index:
+				back(x.X, d+1)
+			case *ssa.Lookup:
+				back(x.X, d+1)
+			case *ssa.Extract:
+				back(x.Tuple, d+1)
+			case *ssa.Next:
+				back(x.Iter, d+1)
+			case *ssa.Range:
+				back(x.X, d+1)
+			case *ssa.Slice:
+				back(x.X, d+1)
+			case *ssa.FieldAddr:
+				back(x.X, d+1)
+			case *ssa.Phi:
+				for _, e := range x.Edges {
+					back(e, d+1)
+				}
+			case *ssa.Alloc:
+				if refs := x.Referrers(); refs != nil {
+					for _, r := range *refs {
+						if st, ok := r.(*ssa.Store); ok && st.Addr == ssa.Value(x) {
+							back(st.Val, d+1)
+						}
+					}
+				}
+			case *ssa.MakeSlice, *ssa.MakeMap:
+				// filled from the parameters (maps.Copy / index stores): judged through the stores' values below
+				if refs := x.(ssa.Value).Referrers(); refs != nil {
+					for _, r := range *refs {
+						if ia, ok := r.(*ssa.IndexAddr); ok {
+							if rr := ia.Referrers(); rr != nil {
+								for _, u := range *rr {
+									if st, ok := u.(*ssa.Store); ok && st.Addr == ssa.Value(ia) {
+										back(st.Val, d+1)
+									}
+								}
+							}
+						}
+					}
+				}
+			}
+		}
+		for _, u := range ups {
+			for _, a := range u.Args()[1:] {
+				back(a, 0)
+			}
+		}
+		c.check(badCall == "", "section-complete", name+": unfiltered", p.Pos(fnPos(fn)), "values committed derive from the section parameters through key sorting, lookups and felt construction only", "a value fed to the digest passes through "+badCall+": the commitment no longer covers the section as given")
+		// (every-iteration)
+		skip := ""
+		for _, u := range ups {
+			if !inSameLoop(u.Block(), u.Block()) {
+				continue
+			}
+			loop := map[*ssa.BasicBlock]bool{}
+			for _, b := range fn.Blocks {
+				if b == u.Block() || inSameLoop(b, u.Block()) {
+					loop[b] = true
+				}
+			}
+			var header *ssa.BasicBlock
+			for b := range loop {
+				all := true
+				for o := range loop {
+					if !b.Dominates(o) {
+						all = false
+					}
+				}
+				if all {
+					header = b
+				}
+			}
+			if header == nil {
+				continue
+			}
+			upd := map[*ssa.BasicBlock]bool{}
+			for _, v := range ups {
+				if loop[v.Block()] {
+					upd[v.Block()] = true
+				}
+			}
+			if upd[header] {
+				continue
+			}
+			seenB := map[*ssa.BasicBlock]bool{}
+			var q []*ssa.BasicBlock
+			for _, sb := range header.Succs {
+				if loop[sb] {
+					q = append(q, sb)
+				}
+			}
+			for len(q) > 0 {
+				b := q[0]
+				q = q[1:]
+				if seenB[b] || upd[b] || !loop[b] {
+					continue
+				}
+				seenB[b] = true
+				for _, sb := range b.Succs {
+					if sb == header {
+						skip = p.Pos(posOf(b.Instrs[len(b.Instrs)-1], fn))
+					}
+					q = append(q, sb)
+				}
+			}
+		}
+		c.check(skip == "", "section-complete", name+": every iteration updates", p.Pos(fnPos(fn)), "each iteration of the section loop feeds the digest", "an iteration of the section loop can reach the next one without feeding the digest (back edge at "+skip+"): some entries are not committed")
+	}
+	if n < 4 {
+		c.und("section-complete", "core digest helpers", "", fmt.Sprintf("only %d per-section digest helpers found", n))
+	}
 }
